@@ -45,7 +45,7 @@ func opaque(v ssa.Value) string {
 		return "φ"
 	case *ssa.Call:
 		if cal := x.Call.StaticCallee(); cal != nil {
-			return cal.Name() + "()"
+			return origin(cal).Name() + "()"
 		}
 		return "call()"
 	case *ssa.Extract:
@@ -122,7 +122,18 @@ func symd(v ssa.Value, d int) string {
 		}
 		return s + "]"
 	case *ssa.Alloc:
+		if symPretty {
+			return "new(" + x.Comment + ")"
+		}
 		return "alloc:" + x.Name()
+	case *ssa.MakeSlice:
+		if symPretty {
+			return "make[]"
+		}
+	case *ssa.MakeMap:
+		if symPretty {
+			return "makemap"
+		}
 	}
 	return opaque(v)
 }
